@@ -49,6 +49,7 @@ type session struct {
 	tops     *tOps
 
 	manifest       *journal.Writer
+	manifestFailed bool // An append to the manifest failed, start a new one on the next commit.
 	manifestWriter storage.Writer
 	manifestFd     storage.FileDesc
 
@@ -230,7 +231,10 @@ func (s *session) commit(r *sessionRecord, trivial bool) (err error) {
 	if s.manifest == nil {
 		// manifest journal writer not yet created, create one
 		err = s.newManifest(r, nv)
-	} else if s.manifest.Size() >= s.o.GetMaxManifestFileSize() {
+	} else if s.manifest.Size() >= s.o.GetMaxManifestFileSize() || s.manifestFailed {
+		// Also taken after a failed append: the journal writer keeps its
+		// error and the record may be in the file although it was reported
+		// as failed, a new manifest written from the current state voids both.
 		// Don't pass r itself to avoid over-reference table file, but carry
 		// over its journal number and sequence number, otherwise they are
 		// lost with the old manifest.
@@ -242,8 +246,14 @@ func (s *session) commit(r *sessionRecord, trivial bool) (err error) {
 			nr.setSeqNum(r.seqNum)
 		}
 		err = s.newManifest(nr, nv)
+		if err == nil {
+			s.manifestFailed = false
+		}
 	} else {
 		err = s.flushManifest(r)
+		if err != nil {
+			s.manifestFailed = true
+		}
 	}
 
 	// finally, apply new version if no error rise
